@@ -38,6 +38,11 @@ def scenarios(ctx, thorough):
         sid += 1
         scs.append(S.mk(sid, "clock-%s-random" % clock, "order", mode="random", callers=6, calls=3, rotate=0, kinds=["object"],
                         gates=["send.genid"], seed=ctx.seed * 1000 + 700 + sid, clock=clock))
+    # the server closes the connection: the client reconnects within the same session, seq_no and msg_id go on
+    sid += 1
+    scs.append(S.mk(sid, "seqno-across-reconnect", "order", [{"a": "Probe", "tag": 90}, {"a": "Probe", "tag": 91}, {"a": "Probe", "tag": 92},
+               {"a": "Sleep", "n": 80}, {"a": "Close"}, {"a": "Probe", "tag": 93}, {"a": "Probe", "tag": 94}, {"a": "Sleep", "n": 80}, {"a": "Close"},
+               {"a": "Probe", "tag": 95}, {"a": "Settle"}]))
     # results nobody waits for are content-related messages too: alone and inside containers
     sid += 1
     scs.append(S.mk(sid, "ack-unsolicited", "order", [{"a": "Probe", "tag": 90}, {"a": "Push", "what": "unsolicited_result"}, {"a": "Probe", "tag": 91},
